@@ -16,7 +16,14 @@ struct SVal : RVal {
 };
 using Tree = frg::rcu_radixtree<SVal, SimAlloc>;
 using PTree = frg::rcu_radixtree<RVal, SimAlloc>; // mode 1
+using QTree = frg::rcu_radixtree<RVal *, SimAlloc>; // mode 2: the value is a raw pointer to a record the user owns
 static int g_mode = 0;
+// find() through a const reference where the tree type offers that (the unchanged tree does not): every second lookup
+template <class T>
+static auto do_find(T *t, uint64_t key, int via_const) {
+	if constexpr (requires(const T &c) { c.find(key); }) { if (via_const) return const_cast<decltype(t->find(key))>(static_cast<const T *>(t)->find(key)); }
+	return t->find(key);
+}
 static_assert(sizeof(SVal) == sizeof(RVal));
 
 template <class T>
@@ -33,20 +40,26 @@ static void iterate(T *t, void (*cb)(void *, void *), void *ctx) {
 }
 
 extern "C" {
-size_t sut_tree_size() { return sizeof(Tree) > sizeof(PTree) ? sizeof(Tree) : sizeof(PTree); }
-void sut_tree_construct(void *mem, int mode) { g_mode = mode; if (mode) new (mem) PTree(); else new (mem) Tree(); }
-void sut_tree_destroy(void *mem) { if (g_mode) static_cast<PTree *>(mem)->~PTree(); else static_cast<Tree *>(mem)->~Tree(); }
-void *sut_find(void *tree, uint64_t key) { if (g_mode) return static_cast<PTree *>(tree)->find(key); return static_cast<RVal *>(static_cast<Tree *>(tree)->find(key)); }
-void *sut_find_or_insert(void *tree, uint64_t key, uint64_t seq, int *inserted) {
+size_t sut_tree_size() { size_t n = sizeof(Tree); if (sizeof(PTree) > n) n = sizeof(PTree); if (sizeof(QTree) > n) n = sizeof(QTree); return n; }
+void sut_tree_construct(void *mem, int mode) { g_mode = mode; if (mode == 2) new (mem) QTree(); else if (mode) new (mem) PTree(); else new (mem) Tree(); }
+void sut_tree_destroy(void *mem) { if (g_mode == 2) static_cast<QTree *>(mem)->~QTree(); else if (g_mode) static_cast<PTree *>(mem)->~PTree(); else static_cast<Tree *>(mem)->~Tree(); }
+void *sut_find(void *tree, uint64_t key, int via_const) {
+	if (g_mode == 2) return do_find(static_cast<QTree *>(tree), key, via_const);
+	if (g_mode) return do_find(static_cast<PTree *>(tree), key, via_const);
+	return static_cast<RVal *>(do_find(static_cast<Tree *>(tree), key, via_const));
+}
+void *sut_find_or_insert(void *tree, uint64_t key, uint64_t seq, int *inserted, void *rec) {
+	if (g_mode == 2) { auto r = static_cast<QTree *>(tree)->find_or_insert(key, static_cast<RVal *>(rec)); *inserted = r.get<1>(); return r.get<0>(); }
 	if (g_mode) { auto r = static_cast<PTree *>(tree)->find_or_insert(key); *inserted = r.get<1>(); return r.get<0>(); }
 	auto r = static_cast<Tree *>(tree)->find_or_insert(key, key, seq, ~key ^ seq);
 	*inserted = r.get<1>();
 	return static_cast<RVal *>(r.get<0>());
 }
-void *sut_insert(void *tree, uint64_t key, uint64_t seq) {
+void *sut_insert(void *tree, uint64_t key, uint64_t seq, void *rec) {
+	if (g_mode == 2) return static_cast<QTree *>(tree)->insert(key, static_cast<RVal *>(rec));
 	if (g_mode) return static_cast<PTree *>(tree)->insert(key);
 	return static_cast<RVal *>(static_cast<Tree *>(tree)->insert(key, key, seq, ~key ^ seq));
 }
-void sut_erase(void *tree, uint64_t key) { if (g_mode) static_cast<PTree *>(tree)->erase(key); else static_cast<Tree *>(tree)->erase(key); }
-void sut_iterate(void *tree, void (*cb)(void *, void *), void *ctx) { if (g_mode) iterate(static_cast<PTree *>(tree), cb, ctx); else iterate(static_cast<Tree *>(tree), cb, ctx); }
+void sut_erase(void *tree, uint64_t key) { if (g_mode == 2) static_cast<QTree *>(tree)->erase(key); else if (g_mode) static_cast<PTree *>(tree)->erase(key); else static_cast<Tree *>(tree)->erase(key); }
+void sut_iterate(void *tree, void (*cb)(void *, void *), void *ctx) { if (g_mode == 2) iterate(static_cast<QTree *>(tree), cb, ctx); else if (g_mode) iterate(static_cast<PTree *>(tree), cb, ctx); else iterate(static_cast<Tree *>(tree), cb, ctx); }
 }
